@@ -214,6 +214,64 @@ def numeric_cases(ctx, n_cases, seeds=None):
                 ctx.violation('dmrg_ with the ground state penalised still returned the ground level', desc)
 
 
+def general_cases(ctx, n_cases, seeds=None):
+    """initial states of any prefactor / canonical form and truncations that DO bind, any number of sweeps: the part of the statement that is unconditional
+    (normalised, canonical, same sector, reported energy = <H> in the returned state, never below the lowest eigenvalue)"""
+    import random, dgen, mgen, yastn.tn.mps as mps, yastn
+    for rep in range(n_cases):
+        sd = seeds[rep] if seeds is not None else ctx.rng.randrange(2 ** 31)
+        rng = random.Random(sd)
+        fam, sym, ops, N, H, n, cplx = problem(rng)
+        method = rng.choice(['1site', '2site', '2site', 'switch'])
+        pre = rng.random() < 0.5
+        prep = rng.choice(['scaled-canonical', 'raw', 'canonical-last', 'scaled-raw'])
+        Dcut = rng.choice([1, 2, 3, 5])
+        nsw = rng.randint(1, 3)
+        desc = dict(kind='dmrg-general', family=fam, sym=sym, N=N, method=method, precompute=pre, prep=prep, D_total=Dcut, sweeps=nsw, cplx=cplx, n=list(np.atleast_1d(n)), case_seed=sd)
+        Hd = dgen.dmat(H, ops)
+        mask = dgen.sector_mask(ops, N, n)
+        idx = np.where(mask)[0]
+        w = np.linalg.eigvalsh(Hd[np.ix_(idx, idx)])
+        try:
+            psi = dgen.random_state(rng, ops, N, D_total=rng.randint(1, 8), n=n, cplx=cplx)
+        except Exception:
+            continue
+        c = rng.choice([2.0, -3.0, 0.25, 1.5j]) if 'scaled' in prep else 1.0
+        if prep == 'scaled-canonical':
+            psi.canonize_(to='first')
+        elif prep == 'canonical-last':
+            psi.canonize_(to='last', normalize=False)
+        if c != 1.0:
+            psi = c * psi
+        ctx.case(desc, nontrivial=len(idx) >= 2)
+        ctx.count('dmrg-general:' + method + ':' + prep)
+        try:
+            mt = yastn.Method('1site' if method == '1site' else '2site')
+            it = mps.dmrg_(psi, H, method=mt, max_sweeps=nsw, iterator=True, opts_svd={'D_total': Dcut}, precompute=pre,
+                           opts_eigs={'hermitian': True, 'ncv': 4, 'which': 'SR'})
+            for k, out in enumerate(it):
+                if method == 'switch':
+                    mt.update_('1site' if k % 2 == 0 else '2site')
+        except (KeyError, yastn.YastnError, ValueError, IndexError, ZeroDivisionError) as e:
+            ctx.violation('dmrg_(%s, precompute=%s, %s) raised %s: %s (%s %s N=%d)' % (method, pre, prep, type(e).__name__, str(e)[:100], fam, sym, N), desc)
+            continue
+        v = dgen.dvec(psi, ops)
+        scale = max(1.0, abs(w[0]), abs(w[-1]))
+        what = '(%s %s N=%d %s precompute=%s start=%s x %r, opts_svd D_total=%d, %d sweep(s))' % (fam, sym, N, method, pre, prep, c, Dcut, nsw)
+        if abs(np.linalg.norm(v) - 1) > 1e-9:
+            ctx.violation('dmrg_ returned a state of norm %r %s' % (np.linalg.norm(v), what), desc)
+            continue
+        if np.linalg.norm(v[~mask]) > 1e-10:
+            ctx.violation('dmrg_ left the charge sector of the initial state %s' % what, desc)
+        if not psi.is_canonical(to='first', tol=1e-9):
+            ctx.violation('dmrg_ returned a state that is not canonical towards the first site %s' % what, desc)
+        e_dense = float(np.real(np.vdot(v, Hd @ v)))
+        if abs(out.energy - e_dense) > 1e-8 * scale:
+            ctx.violation('dmrg_ reports energy %r, the returned state has <H> = %r %s' % (out.energy, e_dense, what), desc)
+        if min(out.energy, e_dense) < w[0] - 1e-8 * scale:
+            ctx.violation('dmrg_ energy %r below the lowest eigenvalue %r of H in the sector %s' % (min(out.energy, e_dense), w[0], what), desc)
+
+
 def _dense_to_mps(ops, N, vec, n):
     """MPS of a dense vector (in the sector n) via yastn's own mps_from_tensor on a symmetric tensor built block by block"""
     import yastn, yastn.tn.mps as mps, mgen
@@ -267,15 +325,18 @@ def run(ctx):
                        'N = 2..6, initial states of every admissible charge, methods 1site / 2site / switching, precompute on/off, H single / scaled / sum of MPOs / with a '
                        'projection penalty: (a) every operation of real sweeps observed and replayed through the Coq model (presence and freshness of every environment '
                        'entry after every operation; the operation sequence is the generated program); (b) norm, charge, canonical form, reported energy vs dense <H>, '
-                       'variational bound vs eigvalsh in the sector, monotonicity over 12 sweeps, eigenstate at full bond dimension, penalised level. '
+                       'variational bound vs eigvalsh in the sector, monotonicity over 12 sweeps, eigenstate at full bond dimension, penalised level; (c) the unconditional part again for '
+                       'initial states with any prefactor / canonical form, truncations that bind (D_total 1..5) and 1..3 sweeps. '
                        'non-trivial = sector of dimension >= 2; distinct by case seed')
     jobs, src = [], []
     trace_cases(ctx, st, 24 if quick else 300, jobs, src)
     numeric_cases(ctx, 40 if quick else 600)
+    general_cases(ctx, 40 if quick else 600)
     bad = compare_model(ctx, st['model_ok'], jobs, src)
     ctx.extra['correspondence'] = dict(traces=len([s for s in src if s[0] == 'trace']), programs=len([s for s in src if s[0] == 'prog']), disagreements=len(bad))
     if (bad or ctx.broken) and not ctx.violations:
         numeric_cases(ctx, 200)
+        general_cases(ctx, 200)
         ctx.extra['extended_search'] = dict(cases=200, found=len(ctx.violations))
     if bad and not ctx.violations:
         ctx.violation('sweep model and implementation disagree: %s' % json.dumps(bad[0], default=str)[:700], dict(kind='correspondence', first=bad[:2]), found_input=True)
@@ -297,6 +358,8 @@ def replay(ctx, path):
             print('not replayable by seed:', json.dumps(d, default=str)[:600]); continue
         if d.get('kind', '').startswith('dmrg-') and 'trace' in d.get('kind', '') or d.get('kind') == 'dmrg-switch':
             trace_cases(ctx, st, 1, jobs, src, seeds=[sd])
+        elif d.get('kind') == 'dmrg-general':
+            general_cases(ctx, 1, seeds=[sd])
         else:
             numeric_cases(ctx, 1, seeds=[sd])
     bad = compare_model(ctx, st['model_ok'], jobs, src)
